@@ -9,6 +9,10 @@ def key_fn(case, obs, verdict):
         return "coreutil.Waiter:" + v[2:]
     if v.startswith("eng:"):
         return "engine.instance.Run:" + v[4:]
+    if v.startswith("cfg:"):
+        return "cli.readConfig:" + v[4:]
+    if v.startswith("ph:"):
+        return "engine+phout:" + v[3:]
     if v.startswith("prof:"):
         return "engine+composite-profile:" + v[5:]
     return "C04:" + v
